@@ -2,6 +2,8 @@
 
 from html.parser import HTMLParser
 
+from liquid2.exceptions import LiquidTypeError
+
 # ruff: noqa: D102
 
 
@@ -50,7 +52,11 @@ def strip_tags(value: str) -> str:
     """Return the given value with all HTML tags removed."""
     if "<" in value and ">" in value:
         parser = StripParser()
-        parser.feed(value)
-        parser.close()
+        try:
+            parser.feed(value)
+            parser.close()
+        except AssertionError as err:
+            # `html.parser` gives up on some malformed declarations, like "<![x]>".
+            raise LiquidTypeError(f"malformed markup, {err}", token=None) from err
         return parser.get_data()
     return value
